@@ -34,11 +34,12 @@ import (
 )
 
 type c05UScn struct {
-	Name  string   `json:"name"`
-	Mode  string   `json:"mode"`  // contents of the mode file ("" = none)
-	Junk  bool     `json:"junk"`  // leftovers: unreadable count file, report with a short name, directory named like a report
-	Debug bool     `json:"debug"` // a debug directory exists (the uploader logs into it)
-	Steps []string `json:"steps"` // "run" ...
+	Name      string          `json:"name"`
+	Mode      string          `json:"mode"`      // contents of the mode file ("" = none)
+	ModeClass *c05h.ModeClass `json:"modeClass"` // if set: the mode file holds this class of bytes (ModeBytes.tla)
+	Junk      bool            `json:"junk"`      // leftovers: unreadable count file, report with a short name, directory named like a report
+	Debug     bool            `json:"debug"`     // a debug directory exists (the uploader logs into it)
+	Steps     []string        `json:"steps"`     // "run" ...
 }
 
 type c05Reader struct{}
@@ -97,6 +98,9 @@ func c05UploadCase(t *testing.T, scn *c05UScn, plan *c05h.Plan, env []string, bu
 	if scn.Mode != "" {
 		os.WriteFile(filepath.Join(dir, "mode"), []byte(scn.Mode), 0666)
 	}
+	if scn.ModeClass != nil {
+		os.WriteFile(filepath.Join(dir, "mode"), scn.ModeClass.Bytes(), 0666)
+	}
 	files := c05CountFiles(t, scn.Junk)
 	for _, f := range files {
 		os.WriteFile(filepath.Join(local, f.name), f.content, 0666)
@@ -105,8 +109,8 @@ func c05UploadCase(t *testing.T, scn *c05UScn, plan *c05h.Plan, env []string, bu
 	os.WriteFile(filepath.Join(local, "2024-01-01.json"), []byte(`{"Week":"2024-01-01","LastWeek":"","X":0.1,"Programs":[],"Config":"v1.2.3"}`), 0666)
 	os.WriteFile(filepath.Join(upload, "2023-12-25.json"), []byte(`{"Week":"2023-12-25"}`), 0666)
 	if scn.Junk {
-		os.WriteFile(filepath.Join(local, "x.json"), []byte(`{}`), 0666)   // shorter than a date
-		os.MkdirAll(filepath.Join(local, "2023-12-18.json"), 0777)          // a directory named like a report
+		os.WriteFile(filepath.Join(local, "x.json"), []byte(`{}`), 0666) // shorter than a date
+		os.MkdirAll(filepath.Join(local, "2023-12-18.json"), 0777)       // a directory named like a report
 		os.WriteFile(filepath.Join(local, "local.junk.json"), []byte(`!`), 0666)
 		os.WriteFile(filepath.Join(local, "weekends"), []byte("9\n"), 0666)
 	}
